@@ -47,15 +47,17 @@ Qed.
 
 (* ---- the ascending phase of one activation ---- *)
 Definition g_unwind (root sib : option nat) (size height : Z) (h : heap) (fuel : nat) : res (option nat * Z * heap) :=
-  if size >? 0 then
+  if ins_seeking size then
     do sibSize <- G.node_size sib h fuel;
-    let rootSize := (sibSize + 1) + size in
+    let rootSize := ins_root_size sibSize size in
     let bw := limit b rootSize in
-    if height <=? bw then Ok (root, rootSize, h)
+    if ins_not_goat height bw then Ok (root, rootSize, h)
     else
       do (t11, h) <- G.rewrite root rootSize h zero fuel;
       Ok (t11, 0, h)
   else Ok (root, size, h).
+(* (the three conditions/expressions are the ones Gen/StreeConst.v takes from the same source lines: a changed
+   operator that both follow leaves the tie standing; with the model held fixed it breaks) *)
 
 Definition unw_post (h : heap) (F : list nat) (Tt : tree) (added : bool) (ht : Z)
            (m : tree * bool * Z * Z) (g : option nat * Z * heap) : Prop :=
